@@ -138,10 +138,16 @@ def check(ctx):
                by=("argument identity",))
         # the handler re-raises otherwise
         if h is not None:
+            # (in whichever order the two outcomes are written: the handler has a bare `raise`, cannot be left by falling through,
+            # and returns nothing but the guarded `return True` checked above)
+            from sa.engine.core import _may_fall_through
             last = h.body[-1]
-            ok2 = isinstance(last, ast.Raise) and last.exc is None
+            inner = [x for s_ in h.body for x in ast.walk(s_)]
+            bare = [x for x in inner if isinstance(x, ast.Raise) and x.exc is None]
+            other_ret = [x for x in inner if isinstance(x, ast.Return) and not (isinstance(x.value, ast.Constant) and x.value.value is True)]
+            ok2 = bool(bare) and not _may_fall_through(h.body) and not other_ret
             ctx.ob("R02-d", aexit, "an error the scope does not absorb is re-raised", ok2,
-                   detail="" if ok2 else "the error handler of __aexit__ does not end in a bare `raise`", node=last, by=("bare raise",))
+                   detail="" if ok2 else "the error handler of __aexit__ can be left without `return True` (absorbed) or a bare `raise`", node=last, by=("bare raise",))
 
     # ---- R02-e filtering in the scope exit ---------------------------------------------------------------------------
     scope_exit_filter(ctx, "R02-e")
